@@ -9,6 +9,7 @@ import (
 	"sort"
 	"strings"
 	"testing"
+	"time"
 
 	"verifharness/vlib"
 
@@ -216,6 +217,10 @@ func compare(client bool, k int, want, got msg) error {
 }
 
 func runCase(c Case) vlib.Result {
+	return vlib.WithWatchdog(60*time.Second, "the HTTP parser", func() vlib.Result { return runCaseInner(c) })
+}
+
+func runCaseInner(c Case) vlib.Result {
 	res := vlib.Result{Classes: c.Classes, NonTrivial: c.NT}
 	want, werr := reference(c.Client, c.Stream)
 	got, gerr, pn := subject(c.Client, c.Stream)
